@@ -13,13 +13,39 @@ func init() {
 		ID: "C37",
 		Decides: "(R37.1) lookup: Get hands out a member only together with found=true and answers not-found only if the address table has no (non-nil) entry; every address-table access keys on memberid(address) and every per-node access on the node address string; " +
 			"(R37.2) join: the per-node list written by Set derives from the node's current list, keeps an existing entry only if its member id differs from the joining member's, and appends the joining member once, after that filter; the address entry and the per-node list are written in one critical section of the address table; " +
-			"(R37.4) every join and leave of the pool runs under the memberlist's joinedLock (the per-node list is read-modify-written inside the address shard's lock only); (R37.3) leave: Remove rewrites the node's list keeping exactly the entries whose member id differs from the leaving member's, removes the node entry only if nothing is left, and touches the per-node table only if the address entry was found.; (R37.e) Empty clears every table of the pool",
+			"(R37.4) every join and leave of the pool runs under the memberlist's joinedLock (the per-node list is read-modify-written inside the address shard's lock only); (R37.3) leave: Remove rewrites the node's list keeping exactly the entries whose member id differs from the leaving member's, removes the node entry only if nothing is left, and touches the per-node table only if the address entry was found.; (R37.e) Empty clears every table of the pool memberid keys on the whole IP and the port.",
 		NotDecided: "linearizability of the two tables together (the per-node table is updated inside the address table's shard lock, other shards run in parallel); Empty() racing with Set().",
 		Run:        runC37,
 	})
 }
 
 func runC37(c *Ctx) {
+	// the address key carries the whole IP and the port: two different addresses never share a key
+	c.Rule("R37.1", "KeyTable")
+	if fn := c.Need("network/quicmemberlist.memberid"); fn != nil {
+		calls := c.CallsTo(fn, "net.JoinHostPort")
+		if c.Exists(fn, "memberid joins host and port", calls, 1) {
+			for _, in := range calls {
+				host, port := CallArg(in, 0), CallArg(in, 1)
+				okHost := true
+				var leaves []string
+				if phi, ok := host.(*ssa.Phi); ok {
+					for _, e := range phi.Edges {
+						leaves = append(leaves, c.D(e))
+					}
+				} else {
+					leaves = []string{c.D(host)}
+				}
+				for _, d := range leaves {
+					if d != "\"\"" && d != "addr.IP.String()" {
+						okHost = false
+					}
+				}
+				c.Report(fn, "memberid: the host part is the whole IP (or empty for none)", c.InstrPos(in), okHost, strings.Join(leaves, " | "))
+				c.Report(fn, "memberid: the port part is the address's port", c.InstrPos(in), c.DependsOnD(port, "addr.Port"), c.D(port))
+			}
+		}
+	}
 	// R37.e: Empty (Leave) clears every table of the pool
 	c.Rule("R37.e", "Exhaustive")
 	if fn := c.Need("network/quicmemberlist.(*membersPool).Empty"); fn != nil {
